@@ -14,6 +14,11 @@ TRetain ==
                 \cup (IF ~e.stable THEN {"RetainedStable"} ELSE {})
                 \cup (IF ~e.concat THEN {"UploadComplete"} ELSE {})
                 \cup (IF e.overlimit THEN {"ChunkLimit"} ELSE {})
+                \* (C18) the stats handler of the mux saw the upload as the handler did: one in-payload event per chunk
+                \* message received, one out-payload event for the reply, one begin and one end
+                \cup (IF e.mode # "download" /\ e.crash = "" /\ e.concat
+                          /\ (e.inpayloads # e.chunks \/ e.outpayloads # 1 \/ e.begins # 1 \/ e.ends # 1)
+                      THEN {"UploadStats"} ELSE {})
      IN /\ failed' = failed \cup {<<e.case, l, f>> : f \in bad}
         /\ stat' = [stat EXCEPT !.retains = @ + 1, !.chunks = @ + e.chunks, !.bytes = @ + e.bytes]
   /\ l' = l + 1
